@@ -713,6 +713,16 @@ def run_history(ctx, drv, new_req, ops_or_gen, stream="history", max_ops=12):
         # ---------------- property predicate on the implementation ----------------
         after = snapshot(cur)
         if "err" in res:
+            if kind == "getitem":
+                ix = py_index(op["ix"])
+                try:
+                    want = src_arr[ix]
+                    valid = isinstance(want, np.ndarray) and want.ndim >= 1 and sum(1 for x in ix if isinstance(x, list)) <= 1
+                except Exception:  # noqa
+                    valid = False
+                if valid:
+                    ctx.pred_fail("getitem-raises", f"ds[ix] raised {res['err']} although ds.array[ix] is a valid index leaving at least one axis",
+                                  case, observed=res, required={"shape": list(want.shape)})
             if after != before:
                 ctx.pred_fail(f"raise-mutates-{kind}", f"{kind} raised {res['err']} but changed the receiver", case,
                               observed=snap_diff(before, after), required="unchanged receiver")
